@@ -17,6 +17,7 @@
 -/
 import SH.Model.Delivery
 import SH.Lemmas.Delivery
+import SH.Lemmas.DeliveryLive
 
 namespace SH.Props.C01
 open SH.Delivery SH.Gen.C01
@@ -562,16 +563,76 @@ example :
     let s := reach true false 50 1000 3 200 [.recent 201, .recv 1, .tick 0 205 true]
     (s.flushed, heldSecs s.ag, heldSecs (step s (.resp 1)).1.ag, (step s (.resp 1)).1.inserted) = ([201], [201], [], [201]) := by decide
 
+/-- **erase_after_ack, literal trace form.** In every run, for every operation other than a process restart, a disk record
+of the agent that is gone after the operation was erased because THAT operation delivered an answer with discard (no rpc
+error) to the sender blocked on the request that carried the record's second — or because the second left the agent's
+historic window (deliberate drop, recorded in `dropped`). No other operation (lost answer, timeout, connection error, insert
+failure, replica down/up, clock jump, memory or disk limit) erases anything. Uses the invariant: request id ↔ second
+(`ridFun`) and disk id ↔ second (`cbdRec`). -/
+theorem erase_trace (disk saveFirst : Bool) (agentNow window shortWindow aggNow : Nat) (ops : List Op) (op : Op)
+    (hop : ∀ c, op ≠ .agentRestart c) (r : Rec)
+    (hr : r ∈ (reach disk saveFirst agentNow window shortWindow aggNow ops).ag.recs) (hid : r.id ≠ 0) :
+    r ∈ (step (reach disk saveFirst agentNow window shortWindow aggNow ops) op).1.ag.recs ∨
+    AckDelivered (reach disk saveFirst agentNow window shortWindow aggNow ops) op r.sec ∨
+    r.sec ∈ (step (reach disk saveFirst agentNow window shortWindow aggNow ops) op).1.ag.dropped :=
+  erase_step (sinv_run (sinv_init disk saveFirst agentNow window shortWindow aggNow) ops) op hop hr hid
+
+/-- … and a process restart (graceful or crash) erases nothing: every record is read back under a new id -/
+theorem restart_erases_nothing (disk saveFirst : Bool) (agentNow window shortWindow aggNow : Nat) (ops : List Op) (crash : Bool)
+    (r : Rec) (hr : r ∈ (reach disk saveFirst agentNow window shortWindow aggNow ops).ag.recs) :
+    ∃ r' ∈ (step (reach disk saveFirst agentNow window shortWindow aggNow ops) (.agentRestart crash)).1.ag.recs, r'.sec = r.sec :=
+  restart_keeps_records _ crash hr
+
+/-- non-vacuity: the record of second 201 (id 1) is erased exactly by the delivery of the discard answer to request 1 -/
+example :
+    (reach true true 50 1000 3 200 [.recent 201, .recv 1, .tick 0 205 true]).ag.recs.map (fun r => (r.sec, r.id)) = [(201, 1)] ∧
+    (step (reach true true 50 1000 3 200 [.recent 201, .recv 1, .tick 0 205 true]) (.resp 1)).1.ag.recs = [] ∧
+    (reach true true 50 1000 3 200 [.recent 201, .recv 1, .tick 0 205 true]).resps.map (fun a => (a.rid, a.sec, a.discard)) = [(1, 201, true)] ∧
+    (reach true true 50 1000 3 200 [.recent 201, .recv 1, .tick 0 205 true]).ag.flights.map (fun f => (f.rid, f.cbd.sec)) = [(1, 201)] := by
+  decide
+
+/-! ### liveness, schedule-existence form -/
+
+/-- **can_always_finish_partial.** From every reachable state in which a second is the (first) oldest entry of the agent's
+historic queue, is inside the agent's historic window, its primary or spare replica is believed alive and is up, that
+replica accepts it into its historic window (`aggDecide … = joinHistoric`, still valid 3 s later) and has no other
+historic bucket waiting: the explicit fault-free schedule `finishOps s` — pop, deliver the request, let the replica's clock
+reach `oldest + shortWindow + 3` — has length ≤ 3 and ends with the second in the body of a successful INSERT.
+PARTIAL with respect to the full statement (kept below): other ways of being held (blocked sender, unread disk record,
+not the oldest queue entry → iterate), a historic backlog at the replica (several inserter rounds), seconds still inside
+the replica's RECENT window, and replicas that first have to come up are not covered. -/
+theorem can_always_finish_partial (disk saveFirst : Bool) (agentNow window shortWindow aggNow : Nat) (ops : List Op)
+    (c : Cbd) (r : Nat) (g : Agg) (b0 nb : Bucket)
+    (hf : FinishReady (reach disk saveFirst agentNow window shortWindow aggNow ops) c r g b0 nb) :
+    (finishOps (reach disk saveFirst agentNow window shortWindow aggNow ops)).length ≤ 3 ∧
+    c.sec ∈ (run (reach disk saveFirst agentNow window shortWindow aggNow ops)
+                 (finishOps (reach disk saveFirst agentNow window shortWindow aggNow ops))).inserted :=
+  ⟨finishOps_length _, can_finish_oldest (sinv_run (sinv_init disk saveFirst agentNow window shortWindow aggNow) ops) hf⟩
+
+/-- non-vacuity: second 150 went to the historic queue while the replicas' recent windows start at 197; the hypotheses hold
+(`FinishReady`), the schedule is the 3-op list, and it inserts 150 -/
+example : FinishReady (reach true false 50 1000 3 200 [.overflow 150]) ⟨150, 1, true⟩ 0
+    { up := true, recent := (advance [] 200 3).2, historic := [] } (mkBucket 197) (mkBucket 203) :=
+  { hist := ⟨[], by decide, by decide⟩, inAgent := by decide, data := Or.inl rfl, replica := ⟨false, by decide⟩, agg := by decide,
+    up := rfl, noBacklog := rfl,
+    window := ⟨mkBucket 198, mkBucket 199, mkBucket 200, [mkBucket 201, mkBucket 202, mkBucket 203], by decide, rfl, rfl, rfl, by decide⟩,
+    accept := by decide, slack := by decide }
+
+example :
+    let s := reach true false 50 1000 3 200 [.overflow 150]
+    (finishOps s, (run s (finishOps s)).inserted) = ([.pop 151, .recv 1, .tick 0 203 true], [150]) := by decide
+
 /-
-  STILL NOT PROVED: can_always_finish (schedule-existence liveness)
+  FULL STATEMENT, still not proved:
 
   theorem can_always_finish (cfg) (ops : List Op) (s := reach cfg ops) (t) (ht : t ∈ heldSecs s.ag)
       (hw : insideWindows s t) : ∃ more : List Op, faultFree more ∧ more.length ≤ bound s ∧ t ∈ (run s more).inserted
 
-  The schedule (alive/up everything; recv every request; tick each replica past the window; resp every answer; pop until
-  the queue is empty; repeat) is what the harness's `finish` phase executes on the real code after every generated case,
-  with oracle sig=not-delivered-after-recovery; constructing it as a Lean function of the state and proving that it ends
-  with t inserted was not attempted in this round.
+  The general schedule (alive/up everything; recv every request; tick each replica past its window; resp every answer; pop
+  until the queue is empty; repeat) is what the harness's `finish` phase executes on the real code after every generated
+  case (oracle sig=not-delivered-after-recovery). Needed beyond `can_always_finish_partial`: a contiguity invariant of the
+  recent window over all ops, a measure over the historic backlog (≤ 12 buckets per inserter round and the contributor-scale
+  break), iteration of the pop step over older queue entries and unread disk records, and the resend path of blocked senders.
 -/
 
 end SH.Props.C01
